@@ -221,11 +221,52 @@ def shard(specs: List[gen.Spec], n: int) -> List[List[gen.Spec]]:
     return [specs[i::n] for i in range(n)]
 
 
+# ---- time budget of the thorough tier ---------------------------------------------------------------
+# A thorough run explores units (machine groups x engines) until its time budget is used up: work units that
+# have not been STARTED by then are not run and are counted in the evidence (`units_not_run_time_budget`);
+# units that are running finish normally, so every verdict is about a completely explored unit.
+# VERIF_BUDGET_S overrides the budget (0 = none); the quick tier has none.
+BUDGET = {"t0": time.time(), "seconds": None, "skipped": 0, "total": 0}
+
+
+def set_budget(tier: str) -> None:
+    v = os.environ.get("VERIF_BUDGET_S")
+    sec = float(v) if v else (None if tier == "quick" else 1200.0)
+    BUDGET.update(t0=time.time(), seconds=(sec if sec else None), skipped=0, total=0)
+
+
+def budget_map(ex, fn, items) -> list:
+    """list(ex.map(fn, items)) that stops handing out work when the budget is spent; returns the results of
+    the items that ran, in order."""
+    return budget_collect([ex.submit(fn, it) for it in list(items)])
+
+
+def budget_collect(futs: list) -> list:
+    BUDGET["total"] += len(futs)
+    if BUDGET["seconds"] is not None:
+        left = BUDGET["t0"] + BUDGET["seconds"] - time.time()
+        cf.wait(futs, timeout=max(left, 0))
+        for f in futs:
+            f.cancel()                      # only work that has not started can be cancelled
+    out = []
+    for f in futs:
+        if f.cancelled():
+            BUDGET["skipped"] += 1
+        else:
+            out.append(f.result())
+    return out
+
+
+def budget_note() -> dict:
+    return {"units_total": BUDGET["total"], "units_not_run_time_budget": BUDGET["skipped"],
+            "time_budget_s": BUDGET["seconds"]}
+
+
 def run_units(units: List[dict], max_procs: int) -> List[dict]:
     if max_procs <= 1 or len(units) <= 1:
         return [unit(u) for u in units]
     with cf.ProcessPoolExecutor(max_workers=max_procs) as ex:
-        return list(ex.map(unit, units))
+        return budget_map(ex, unit, units)
 
 
 def violation_signature(v: dict) -> str:
